@@ -270,7 +270,8 @@ class Ctx:
             out_lines.append("VIOLATION property=%s replay=%s no-failing-input-found" % (self.prop, path))
         elif broken:
             self.notes.append("broken obligations (failing input reported above): " + "; ".join(n for n, _ in broken))
-        self.write_evidence(level, rule, nviol, extra_cov)
+        if not self.replay:   # a replay re-examines one input; it is not a coverage run
+            self.write_evidence(level, rule, nviol, extra_cov)
         for l in out_lines:
             print(l)
         for n, d in broken:
